@@ -3,7 +3,7 @@ CONSTANTS
   NTraders = 6
   Vols = {1, 2, 3}
   Dts = {0}
-  Depth = 4
+  Depth = 8
   Start = 10
   End0 = 20
   Thr = 1000
@@ -13,6 +13,7 @@ CONSTANTS
   Inc = FALSE
   Odd = FALSE
   PrintPaths = TRUE
+  NPre = 4
 VIEW View
 INVARIANTS StateMon PathOut
 PROPERTIES StepMon
